@@ -477,11 +477,41 @@ func init() {
 			havocField(recv, n, "level", nil)
 			havocField(recv, n, "num", func(old, nv Expr) Expr { return IGt(nv, IntLit(0)) })
 			havocField(recv, n, "handler", nonNil)
-			havocField(recv, n, "legacy", nil)
+			var legOld, legNew, flOld, flNew Expr
+			havocField(recv, n, "legacy", func(old, nv Expr) Expr { legOld, legNew = old, nv; return True })
 			for i := 0; i < st.NumFields(); i++ {
 				if st.Field(i).Name() == "frame" {
-					frameFlags(Select(t.heap(n, i), recv))
+					fp := Select(t.heap(n, i), recv)
+					fr := t.eng.findPackage("lz4stream").Scope().Lookup("Frame").Type().(*types.Named)
+					fst := fr.Underlying().(*types.Struct)
+					var fh *Cell
+					var dobj Expr
+					for k := 0; k < fst.NumFields(); k++ {
+						if fst.Field(k).Name() == "Descriptor" {
+							dn := fst.Field(k).Type().(*types.Named)
+							dst := dn.Underlying().(*types.Struct)
+							for m := 0; m < dst.NumFields(); m++ {
+								if dst.Field(m).Name() == "Flags" {
+									fh = t.heap(dn, m)
+									dobj = t.embObj(fp, fr, k)
+								}
+							}
+						}
+					}
+					if fh != nil {
+						flOld = t.newTemp("optflold", Select(fh, dobj))
+					}
+					frameFlags(fp)
+					if fh != nil {
+						flNew = Select(fh, dobj)
+					}
 				}
+			}
+			if legOld != nil && flOld != nil {
+				// an option leaves the Writer with a block size code that the format it now writes has
+				// (8 MiB, code 3, exists in the legacy format only), or changes neither the format nor the code
+				idx := func(x Expr) Expr { return mk("mod", SInt, mk("div", SInt, x, IntLit(4096)), IntLit(8)) }
+				t.cur.Assume(Or(legNew, And(ILe(IntLit(4), idx(flNew)), ILe(idx(flNew), IntLit(7))), And(Eq(legNew, legOld), Eq(idx(flNew), idx(flOld)))))
 			}
 		case "Reader":
 			havocField(recv, n, "num", func(old, nv Expr) Expr { return IGt(nv, IntLit(0)) })
